@@ -106,6 +106,7 @@ OkWithoutOwnAck(e) ==
   LET h == HistAfter(e) IN
   \E c \in SeqSet(e.proj.called) :
      /\ TOpOf[c] = "put" /\ e.proj.done[c] = "ok" /\ e.outcomes[c] = 1
+     /\ c \notin hist.answered                             \* judged on the line that answers the call
      /\ ~e.proj.t[TTargetOf[c]].p_on                       \* the put is over (not: superseded by a put still running)
      /\ hist.ptids[TTargetOf[c]] \cap h.acked = {}
      /\ hist.ptids[TTargetOf[c]] # {}
@@ -116,8 +117,8 @@ ErrDespiteOwnAck(e) ==
   \E c \in SeqSet(e.proj.called) :
      /\ TOpOf[c] = "put" /\ e.proj.done[c] \notin {"pending", "ok", "dropped", "CasFailed", "NotMostRecent", "ConflictRisk"}
      /\ e.outcomes[c] = 1 /\ ~e.proj.t[TTargetOf[c]].p_on
-     \* "no closest nodes" is only judged on the line that answers the call (a later put on the target has requests of its own)
-     /\ (e.proj.done[c] = "NoClosestNodes" => c \notin hist.answered)
+     \* judged on the line that answers the call: a later put on the same target has requests (and acknowledgements) of its own
+     /\ c \notin hist.answered
      /\ hist.ptids[TTargetOf[c]] \cap h.acked # {}
 
 \* ---- L1 readable off one observed line ----
@@ -144,6 +145,9 @@ L1(e) ==
              \/ (t1 # t2 /\ (SeqSet(e.proj.t[t1].q_tids) \cup SeqSet(e.proj.t[t1].p_tids)) \cap (SeqSet(e.proj.t[t2].q_tids) \cup SeqSet(e.proj.t[t2].p_tids)) # {})
              \/ (SeqSet(e.proj.t[t1].q_tids) \cap SeqSet(e.proj.t[t1].p_tids) # {})
         THEN {"C09_TidsDisjoint"} ELSE {})
+  \* C09: ... and over the whole behaviour no (transaction id, address) pair is used for two requests: the late reply to an expired
+  \* request could otherwise not be told from the reply to the new one
+  \cup (IF e.tid_reused # <<>> THEN {"C09_TidsNotReused"} ELSE {})
   \* C17: concurrency errors are never produced for immutable puts
   \cup (IF \E c \in SeqSet(e.proj.called) : TOpOf[c] = "put" /\ TItemOf[c].kind = "imm" /\ e.proj.done[c] \in {"NotMostRecent", "CasFailed", "ConflictRisk"}
         THEN {"C17_NeverForOtherKinds"} ELSE {})
